@@ -19,8 +19,15 @@ pub async fn attach_raw(sim: &mut Sim, s: SockId, identity: Option<&[u8]>) -> Re
 /// direction(s) the socket type supports. `skip_send` skips the outbound half (REQ whose
 /// rotation may legitimately be parked on another peer).
 pub async fn healthy_roundtrip(sim: &mut Sim, s: SockId, tag: &[u8], skip_send: bool) -> Result<(), String> {
-    let kind = sim.kind(s);
     let (link, id) = attach_raw(sim, s, None).await?;
+    roundtrip_on(sim, s, &link, &id, tag, skip_send).await
+}
+
+/// The same exchange on a connection that is already established (`link`, registered as `id`,
+/// with no application traffic on its wire so far).
+pub async fn roundtrip_on(sim: &mut Sim, s: SockId, link: &Link, id: &[u8], tag: &[u8], skip_send: bool) -> Result<(), String> {
+    let kind = sim.kind(s);
+    let id = id.to_vec();
     let tagv = tag.to_vec();
     // inbound
     if kind.fair_queue_recv() {
